@@ -20,7 +20,6 @@ from __future__ import annotations
 import bz2
 import gzip
 import io
-import itertools
 import lzma
 import os
 import pathlib
@@ -37,6 +36,7 @@ REQUIRED_THEOREMS = [
     "C03.table_disjoint_from_pickle",
     "C03.table_names",
     "C03.table_extensions_suffix_free",
+    "C03.table_documented_extensions",
     "C03.table_max_prefix_len",
     "C03.detect_after_write",
     "C03.detect_pickle",
@@ -160,9 +160,6 @@ def target_token(kind, name):
 
 # ----------------------------------------------------------------------------- independent observation of a file
 
-LZMA_FILTERS_NOTE = "xz: dictionary-size byte of the first block header; lzma: dictionary size of the header"
-
-
 def _codecs(zlevel):
     def zc(wbits):
         def f(data, level):
@@ -233,8 +230,10 @@ class Impl:
         self.tables = tables
         self.codecs = _codecs(tables["zlibDefaultLevel"])
         self.n = 0
-        self.dir = ctx.scratch / "c03"
-        self.dir.mkdir(parents=True, exist_ok=True)
+        import tempfile
+
+        pathlib.Path(ctx.scratch).mkdir(parents=True, exist_ok=True)
+        self.dir = pathlib.Path(tempfile.mkdtemp(prefix="c03-", dir=str(ctx.scratch)))  # one per Impl (run, search, shards)
 
     def fresh(self, name):
         self.n += 1
@@ -349,30 +348,39 @@ def targets(tables, thorough):
     return out
 
 
-def run_resolve(ctx, res, impl, tables, cases=None):
-    drv = ctx.driver()
-    if cases is None:
-        forms = compress_forms(tables)
-        tg = targets(tables, ctx.thorough)
-        cases = [(c, k, n) for c in forms for (k, n) in tg]
+class _ShardCtx:
+    """What `Impl` needs of a ctx, picklable, for the worker processes of the resolve product."""
+
+    def __init__(self, scratch):
+        self.scratch = scratch
+
+
+def all_resolve_cases(tables):
+    forms = compress_forms(tables)
+    tg = targets(tables, False)
+    return [(c, k, n) for c in forms for (k, n) in tg]
+
+
+def observe_resolve(impl, tables, cases):
+    """Runs the real dump/load on each case. Returns plain records (no model involved):
+    ("resolve", case, impl_outcome) / ("detect", case, detected) / ("fail", sig, case, detail) /
+    ("diverge", stream, case, impl, model) / ("count", key)."""
+    out = []
     raw = impl.raw_ref(PROBE_OBJ)
-    reqs, pend = [], []
     zf = bytes(tables["zfilePrefix"])
     for c, kind, name in cases:
         at, tt = arg_token(c), target_token(kind, name)
-        out = impl.dump(PROBE_OBJ, c, kind, name)
+        o = impl.dump(PROBE_OBJ, c, kind, name)
         case = dict(kind="resolve", compress=enc(c), target=kind, name=name, arg_token=at, target_token=tt)
-        res.evaluations += 1
-        res.count("arg=" + arg_label(at))
-        res.count("target=" + kind)
-        res.nontrivial.add((at, tt))
-        if out[0] == "err":
-            impl_s = "err " + out[1]
-            res.count("outcome=err:" + out[1])
-        elif out[0] != "ok":
-            impl_s = out[0] + " " + str(out[1])
+        out.append(("count", "arg=" + arg_label(at)))
+        out.append(("count", "target=" + kind))
+        if o[0] == "err":
+            impl_s = "err " + o[1]
+            out.append(("count", "outcome=err:" + o[1]))
+        elif o[0] != "ok":
+            impl_s = o[0] + " " + str(o[1])
         else:
-            data = out[1]
+            data = o[1]
             who = identify(data, raw, impl.codecs)
             if who == "raw":
                 impl_s = "ok raw"
@@ -380,41 +388,83 @@ def run_resolve(ctx, res, impl, tables, cases=None):
                 impl_s = "ok unknown " + data[:8].hex()
             else:
                 impl_s = f"ok codec {who} sig={level_sig(who, data)}"
-            res.count("outcome=ok:" + who)
+            out.append(("count", "outcome=ok:" + who))
             # ---- oracle on the implementation (no model): the file loads, identically, whatever it is called
             try:
                 lext = ".pkl" if name.endswith(".gz") else ".gz"
-                for how, back in impl.load_variants(data, out[2], lext):
+                for how, back in impl.load_variants(data, o[2], lext):
                     if back != PROBE_OBJ:
-                        res.fail("load-differs-after-dump", case, dict(how=how, got=repr(back)[:200]))
+                        out.append(("fail", "load-differs-after-dump", case, dict(how=how, got=repr(back)[:200])))
             except Exception as e:  # noqa: BLE001
-                res.fail("load-raises-after-dump:" + type(e).__name__, case, repr(e)[:300])
+                out.append(("fail", "load-raises-after-dump:" + type(e).__name__, case, repr(e)[:300]))
             # ---- sniffing on the actual bytes, against the model's detect
             d1, d2 = impl.detect(data, True), impl.detect(data, False)
             if d1 != d2:
-                res.fail("detect-peek-vs-read-differ", case, dict(peek=d1, read=d2))
-            reqs.append("detect " + (data[:24].hex() or "-"))
-            pend.append(("detect", case, det_str(d1), None))
+                out.append(("fail", "detect-peek-vs-read-differ", case, dict(peek=d1, read=d2)))
+            out.append(("detect", case, det_str(d1), data[:24].hex() or "-"))
             # magic law of the codec parameter: the stream starts with the prefix joblib lists for that codec
             if who not in ("raw", "unknown"):
                 pfx = bytes(next(cc["pfx"] for cc in tables["compressors"] if cc["name"] == who))
                 if not data.startswith(pfx):
-                    res.diverge("codec-law-magic", case, data[:8].hex(), pfx.hex())
+                    out.append(("diverge", "codec-law-magic", case, data[:8].hex(), pfx.hex()))
             if who == "raw" and data.startswith(zf):
-                res.diverge("pickle-starts-with-ZF", case, data[:8].hex(), "-")
-        reqs.append(f"resolve {at} {tt}")
-        pend.append(("resolve", case, impl_s, raw))
-        if res.evaluations % 997 == 0:
-            res.sample(dict(case=case, impl=impl_s))
-        if out[2] is not None:
+                out.append(("diverge", "pickle-starts-with-ZF", case, data[:8].hex(), "-"))
+        out.append(("resolve", case, impl_s))
+        if o[2] is not None:
             try:
-                if os.path.exists(out[2]):
-                    os.unlink(out[2])
-                os.rmdir(os.path.dirname(out[2]))
+                if os.path.exists(o[2]):
+                    os.unlink(o[2])
+                os.rmdir(os.path.dirname(o[2]))
             except OSError:
                 pass
+    return out
+
+
+def _resolve_shard(args):
+    scratch, tables, i, n = args
+    warnings.simplefilter("ignore")
+    impl = Impl(_ShardCtx(pathlib.Path(scratch) / f"shard{i}"), tables)
+    return observe_resolve(impl, tables, all_resolve_cases(tables)[i::n])
+
+
+RESOLVE_SHARDS = 8
+
+
+def run_resolve(ctx, res, impl, tables, cases=None):
+    drv = ctx.driver()
+    if cases is None:
+        import concurrent.futures
+        import multiprocessing
+
+        with concurrent.futures.ProcessPoolExecutor(RESOLVE_SHARDS, mp_context=multiprocessing.get_context("fork")) as ex:
+            parts = list(ex.map(_resolve_shard, [(str(ctx.scratch), tables, i, RESOLVE_SHARDS) for i in range(RESOLVE_SHARDS)]))
+        records = [r for part in parts for r in part]
+        n_cases = len(all_resolve_cases(tables))
+    else:
+        records = observe_resolve(impl, tables, cases)
+        n_cases = len(cases)
+    raw = impl.raw_ref(PROBE_OBJ)
+    reqs, pend = [], []
+    for r in records:
+        if r[0] == "count":
+            res.count(r[1])
+        elif r[0] == "fail":
+            res.fail(r[1], r[2], r[3])
+        elif r[0] == "diverge":
+            res.diverge(r[1], r[2], r[3], r[4])
+        elif r[0] == "detect":
+            reqs.append("detect " + r[3])
+            pend.append(("detect", r[1], r[2]))
+        else:
+            case = r[1]
+            res.evaluations += 1
+            res.nontrivial.add((case["arg_token"], case["target_token"]))
+            if res.evaluations % 997 == 0:
+                res.sample(dict(case=case, impl=r[2]))
+            reqs.append(f"resolve {case['arg_token']} {case['target_token']}")
+            pend.append(("resolve", case, r[2]))
     replies = drv.run(reqs)
-    for (what, case, impl_s, rawref), rep in zip(pend, replies):
+    for (what, case, impl_s), rep in zip(pend, replies):
         res.traces_validated += 1
         if rep == "bad-op":
             raise core.InfraError(f"driver rejected request for {case}")
@@ -428,13 +478,13 @@ def run_resolve(ctx, res, impl, tables, cases=None):
             name, lvl = parts[2], parts[3]
             level = None if lvl == "default" else int(lvl)
             try:
-                ref = impl.codecs[name][1](rawref, level)
+                ref = impl.codecs[name][1](raw, level)
                 model_s = f"ok codec {name} sig={level_sig(name, ref)}"
             except Exception as e:  # noqa: BLE001
                 model_s = f"ok codec {name} level={lvl} (reference codec raised {type(e).__name__})"
         if model_s != impl_s:
             res.diverge("resolve", case, impl_s, rep + " => " + model_s)
-    return len(cases)
+    return n_cases
 
 
 def run_detect_synthetic(ctx, res, impl, tables):
@@ -635,6 +685,12 @@ def _explore(ctx, scale, salt):
     return res
 
 
+def prepare(ctx):
+    """Called by core.run_check before the proof audit: the table-level theorems are then built against the
+    tables VERIF_REPO has now."""
+    gen_tables.regenerate()
+
+
 def run(ctx):
     if ctx.replay:
         res = Result()
@@ -649,8 +705,8 @@ def run(ctx):
         else:
             run_detect_synthetic(ctx, res, impl, tables)
         return res
-    return _explore(ctx, 4.0 if ctx.thorough else 1.0, "main")
+    return _explore(ctx, 12.0 if ctx.thorough else 1.5, "main")
 
 
 def search(ctx, res):
-    return _explore(ctx, 6.0, "search")
+    return _explore(ctx, 8.0, "search")
